@@ -39,7 +39,11 @@ def handle? (op : String) (j : Json) : Option Json :=
     let b := Compile.bundleOf j
     some (match Sys.loadFile b 32 (str j "entry") (nat j "nargs") "@" "" "." (strList (j.getObjValD "includes")) (nat j "anon") with
     | .error _ => reject "reject"
-    | .ok (inst, _) => Json.mkObj [("ok", instSnap inst)])
+    | .ok (inst, _) =>
+      let fixed := (arr j "fixed").toList.map (fun f => (⟨str f "kind", str f "name", (str f "seq").toList⟩ : Compile.FixLine))
+      match Compile.applyAllFixed Generated.dnaTable inst fixed 0 with
+      | .error _ => reject "fix-error"
+      | .ok (inst', _) => Json.mkObj [("ok", instSnap inst')])
   | "mfe-read" =>
     some (match Finish.readDesign Generated.alphaMfeSeq (str j "text").toList with
       | some d => Json.mkObj [("ok", Json.arr (d.map (fun (n, s) => Json.arr #[Json.str (String.ofList n), Json.str (String.ofList s)])).toArray)]
